@@ -220,7 +220,8 @@ type Config struct {
 	Horizon  int64 // timers with a deadline beyond the horizon never fire (0 = no horizon)
 	MaxSteps int   // safety cap (0 = 1e6)
 	Trace    bool  // record human readable trace
-	Bufsiz   int   // for harness use
+	Bufsiz   int   // > 0: model capacity of the channels whose capacity is the library's EventBufsiz constant
+	MapOrder bool  // every map iteration of the transformed code is an explorer choice of rotation (default: canonical order)
 }
 
 // Chooser decides which enabled transition is taken.
@@ -356,6 +357,7 @@ func Execute(cfg Config, chooser Chooser, root func()) *Result {
 		EngineError("nested Execute")
 	}
 	current = s
+	mapOrderChoice = cfg.MapOrder
 	atomic.StoreInt32(&running, 1)
 	defer func() {
 		atomic.StoreInt32(&running, 0)
